@@ -79,10 +79,19 @@ class Contract:
             w = post.get(k)
             if isinstance(v, sym.Arr) and isinstance(w, sym.Arr):
                 assert_same(f"frame.{k}", w, v, "post")
-            elif isinstance(v, (list, tuple)) and isinstance(w, (list, tuple)) and len(v) == len(w) and v and all(isinstance(x, sym.Arr) for x in v) \
-                    and all(isinstance(x, sym.Arr) for x in w):
-                for i, (a, b) in enumerate(zip(w, v)):
-                    assert_same(f"frame.{k}[{i}]", a, b, "post")
+            elif isinstance(v, (list, sym.Seq)) and isinstance(w, (list, sym.Seq)):
+                # a list handed in (selected frequencies, orders, names, arrays ...) is not sorted, extended or edited in place
+                scal = (sym.Arr, sym.F, sym.C, int, float, bool, str, sym.SymStr) if hasattr(sym, "SymStr") else (sym.Arr, sym.F, sym.C, int, float, bool, str)
+                if isinstance(v, list) and isinstance(w, list):
+                    if len(v) != len(w):
+                        c.oblige("post", f"frame.{k}.len", False)
+                    elif all(isinstance(x, scal) or z3.is_expr(x) for x in v) and all(isinstance(x, scal) or z3.is_expr(x) for x in w):
+                        assert_same(f"frame.{k}", w, v, "post")
+                elif isinstance(v, sym.Seq) and isinstance(w, sym.Seq):
+                    try:
+                        assert_same(f"frame.{k}", w, v, "post")
+                    except Unsupported:
+                        pass
 
     def compare_outcome(self, c, outcome, want):
         if outcome[0] != want[0]:
